@@ -233,8 +233,10 @@ def run(rep):
             for ar in (4, 5):          # the parity templates enumerate sign patterns: proved per arity (2..5), not for all n
                 pv.run_contract(TemplateFixed(t, ar))
     # the whole transformation on an arbitrary circuit: loops by invariants, process_gate by its contract (c05_rec.py)
-    from .c05_rec import TseytinAny, INSTANCES
-    for c in [TseytinAny('loops'), TseytinAny('loops', True), TseytinAny('saved')] + [TseytinAny(m) for m in INSTANCES]:
+    from .c05_rec import TseytinAny, INSTANCES, G_INSTANCES
+    extra = [] if quick else [(t, 4) for t in S.NARY] + [(t, a) for t in S.CONST for a in (1, 2)]      # thorough: wider n-ary gates, constants carrying operands
+    G_INSTANCES[:] = INSTANCES + extra
+    for c in [TseytinAny('loops'), TseytinAny('loops', True), TseytinAny('saved')] + [TseytinAny(m) for m in INSTANCES + extra]:
         it.loop_specs.clear()
         it.contracts.clear()
         pv.run_contract(c)
